@@ -163,6 +163,18 @@ class EditGen:
             return [['append', s, "argument('extra{}', default='d')\n"
                      .format(self.n)]], 'script_semantic:options'
         if s == 'toolchain.bfg':
+            x = rng.random()
+            text = self.world.read(s)
+            lines = text.rstrip('\n').split('\n')
+            if x < 0.35 and len(lines) > 2:
+                # remove a setting: the next regeneration must forget it
+                del lines[rng.randrange(1, len(lines))]
+                return [['write', s, '\n'.join(lines) + '\n']], \
+                    'script_semantic:toolchain-remove'
+            if x < 0.6:
+                return [['append', s, "environ['CFLAGS'] = environ.get("
+                         "'CFLAGS', '') + ' -DAPP{}'\n".format(self.n)]], \
+                    'script_semantic:toolchain-append'
             return [['append', s, "environ['CFLAGS'] = '-O{} -DX{}'\n"
                      .format(rng.randrange(3), self.n)]], \
                 'script_semantic:toolchain'
